@@ -38,6 +38,10 @@ def make_param(it, name, kind):
         return it.new_obj(name, kind[4:].split("|"))
     if kind.startswith("obj?:"):
         return it.new_obj(name, kind[5:].split("|"), maybe_none=True)
+    if kind.startswith("arr1:"):
+        n = int(kind.split(":")[1])
+        vals = [z3.Real("%s[%d]" % (name, i)) for i in range(n)]
+        return LArr(n, lambda i, vals=vals: vals[concrete_int(i)] if concrete_int(i) is not None else _select(vals, i), fresh_alloc=False)
     if kind == "arr1":
         n = z3.Int("len_" + name)
         f = z3.Function("arg_" + name, z3.IntSort(), z3.RealSort())
@@ -46,6 +50,13 @@ def make_param(it, name, kind):
     if kind.startswith("const:"):
         return eval(kind[6:], {})
     raise Unsupported("parameter kind %s" % kind)
+
+
+def _select(vals, i):
+    res = vals[-1]
+    for j in range(len(vals) - 2, -1, -1):
+        res = z3.If(i == j, vals[j], res)
+    return res
 
 
 def parse_expr(s):
@@ -253,6 +264,8 @@ def verify_function(qualname, contract, schema, timeout_ms=10000, contracts=None
                 env[a] = make_param(it, a, params[a])  # locals of the enclosing function visible to a fragment
         for gname, gkind in contract.get("ghost_params", {}).items():
             env[gname] = make_param(it, gname, gkind)
+        it.expr_stubs = contract.get("stubs")
+        it.ghost_env = env
         it.func_stack.append(fi.qualname)
         # requires
         it.spec_mode = True
@@ -267,7 +280,8 @@ def verify_function(qualname, contract, schema, timeout_ms=10000, contracts=None
         it.definedness = True
         entry = (list(it.facts), list(it.pc), list(it.qfacts))
         old_heap = it.heap.copy()
-        old_env = dict(env)
+        old_env = {k: (v.snapshot() if isinstance(v, LArr) else v) for k, v in env.items()}  # arrays passed in may be mutated in place
+        it.live_env = env
         it.heap.touched = set()
         out = PathOutcome()
         body_env = dict(env)
@@ -285,6 +299,37 @@ def verify_function(qualname, contract, schema, timeout_ms=10000, contracts=None
             out.kind = "raise"
             out.exc = r.exc_class
             out.line = getattr(r.node, "lineno", None)
+        rel = contract.get("relational")
+        if rel is not None and out.kind == "return":
+            # second execution of the same function with some parameters replaced (relational clause: monotonicity etc.)
+            if it.heap.touched:
+                raise Unsupported("relational clause on a function that writes to the heap")
+            env2 = dict(env)
+            for pname, pkind in rel["vary"].items():
+                env2[pname] = make_param(it, pname + "_2", pkind)
+            it.spec_mode = True
+            it.definedness = False
+            both = dict(env)
+            both.update({k + "_2": v for k, v in env2.items() if k in rel["vary"]})
+            for i, r in enumerate(rel.get("requires", [])):
+                v = it.eval(parse_expr(r), dict(both))
+                v = it.truth(v) if not isinstance(v, (ForallV, ExistsV, tuple, bool)) else v
+                assume_spec(it, v, "relational.requires[%d]" % i)
+            if not it.feasible():
+                raise Infeasible()
+            it.spec_mode = False
+            it.definedness = False  # definedness was already obliged by the first run
+            try:
+                it.exec_block(body_stmts, dict(env2))
+                res2 = None
+            except _Return as r2:
+                res2 = r2.value
+            except _Raise:
+                raise Infeasible()  # relational clauses talk about pairs of normal returns
+            it.ghost["result_2"] = res2
+            for k in rel["vary"]:
+                it.ghost[k + "_2"] = env2[k]
+            old_env = dict(old_env)
         path_no[0] += 1
         pid = "p%d" % path_no[0]
         it.oblig_prefix = ""
@@ -299,7 +344,7 @@ def verify_function(qualname, contract, schema, timeout_ms=10000, contracts=None
         it.definedness = False
         it.old_state = (old_heap, old_env)
         if out.kind == "return":
-            post_env = dict(old_env)  # parameters as at entry are visible by name; Python semantics: specs talk about entry values
+            post_env = dict(it.live_env)  # parameter names denote the objects passed in, in their final state; old(x) their entry state
             post_env["result"] = out.value
             for g, gv in it.ghost.items():
                 post_env[g] = gv
